@@ -516,6 +516,42 @@ theorem changed_pool_gets_fresh_records {B : Nat} {now height : Int} {w w' wB : 
   obtain ⟨s, n, a, b⟩ := updateRecords_fresh hd hacc i hi'
   exact ⟨s, n, by rw [ag i.key ((hi p hpc i hi').trans hpB)]; exact a, b⟩
 
+/-- a list of changed pools without two entries of the same pool: the entries of `p`'s pool are `[p]`. -/
+theorem filter_own_pool_eq_singleton {c : List PoolInput} (hn : (c.map (·.pool)).Nodup) {p : PoolInput} (hp : p ∈ c) :
+    c.filter (fun q => decide (q.pool = p.pool)) = [p] := by
+  induction c with
+  | nil => cases hp
+  | cons x xs ih =>
+    rw [List.map_cons, List.nodup_cons] at hn
+    rcases List.mem_cons.mp hp with e | e
+    · subst e
+      rw [List.filter_cons_of_pos (by simp)]
+      congr 1
+      apply List.filter_eq_nil_iff.mpr
+      intro q hq
+      simp only [decide_eq_true_eq]
+      intro hqp
+      exact hn.1 (List.mem_map.mpr ⟨q, hq, hqp⟩)
+    · have hx : x.pool ≠ p.pool := fun h => hn.1 (List.mem_map.mpr ⟨p, e, h.symm⟩)
+      rw [List.filter_cons_of_neg (by simpa using hx)]
+      exact ih hn.2 e
+
+/-- **endBlock_records_every_changed_pool**: the record loop of `EndBlock` has NO capacity: for a list of changed pools of
+ANY length (one entry per pool — the transient store holds a pool id once), every pool whose update is acceptable on its
+own has, after the block, for every one of its pairs a most recent record at the block time and height with the block's
+end-of-block prices — the first pool of the list and the last, whatever the order of the list (the order of the
+changed-pool store is the little-endian one of the ids, not the numeric one) and however many pools precede it. -/
+theorem endBlock_records_every_changed_pool {now height : Int} {w w' : World} {c : List PoolInput}
+    (hi : InputsOfOwnPool c) (hn : (c.map (·.pool)).Nodup)
+    (hd : ∀ p ∈ c, (p.pairs.map (·.key)).Nodup)
+    (hacc : ∀ p ∈ c, ∃ wB, updateRecords w now height p.pairs = some (wB, false))
+    (h : endBlock now height w c = some w') :
+    ∀ p ∈ c, ∀ i ∈ p.pairs, ∃ s n, w'.get i.key = some s ∧ s.recent = some n ∧ n.time = now ∧ n.height = height ∧
+      n.sp0 = i.sp0 ∧ n.sp1 = i.sp1 := by
+  intro p hp
+  obtain ⟨wB, hB⟩ := hacc p hp
+  exact changed_pool_gets_fresh_records (B := p.pool) hi (filter_own_pool_eq_singleton hn hp) (hd p hp) hB h
+
 /-- **prune_world_pair_by_pair**: a completed pruning pass prunes every pair's index on its own records: the
 stores of a pair after the pass are a function of that pair's stores before it (no record of any other
 pair, of this or another pool, is read or removed). -/
@@ -743,5 +779,25 @@ separator above every denom character a denom sorts AFTER its own extensions. -/
 example :
     (sortByRecentKey [⟨⟨1, "uusd", "zzz"⟩, 0, 0, false⟩, ⟨⟨1, "uusdc", "zzz"⟩, 0, 0, false⟩, ⟨⟨1, "uusd", "uusdc"⟩, 0, 0, false⟩]).map
       (fun i => (i.key.d0, i.key.d1)) = [("uusdc", "zzz"), ("uusd", "uusdc"), ("uusd", "zzz")] := by decide +kernel
+
+/-- `n` two-asset pools created in one block (price 2), ids in the order of the changed-pool store for ids up to 511:
+256, 1, 257, 2, … (low byte first), and a block that changes every one of them (price 4). -/
+def manyIds (n : Nat) : List Nat := (List.range n).map fun i => if i % 2 = 0 then 256 + i / 2 else (i + 1) / 2
+def manyWorld (n : Nat) : World :=
+  (manyIds n).foldl (fun w id => createPairs w 1000000000 1 [⟨⟨id, "uatom", "uusd"⟩, 2 * P18, P18 / 2, false⟩]) []
+def manyChanged (n : Nat) : List PoolInput :=
+  (manyIds n).map fun id => ⟨id, [⟨⟨id, "uatom", "uusd"⟩, 4 * P18, P18 / 4, false⟩]⟩
+
+/-- 130 pools change in one block (more than any small capacity): the hypotheses of `endBlock_records_every_changed_pool`
+hold and the LAST pool of the list has its record. -/
+example :
+    let w := manyWorld 130
+    let c := manyChanged 130
+    c.length = 130 ∧ (c.map (·.pool)).Nodup ∧
+    (∀ p ∈ c, (∀ i ∈ p.pairs, i.key.pool = p.pool) ∧ (p.pairs.map (·.key)).Nodup ∧
+      (updateRecords w 3000000000 2 p.pairs).map (·.2) = some false) ∧
+    ((endBlock 3000000000 2 w c).bind fun w' => (w'.get ⟨65, "uatom", "uusd"⟩).bind fun s => s.recent.map fun r => (r.time, r.height, r.sp0, r.sp1))
+      = some (3000000000, 2, 4 * P18, P18 / 4) ∧
+    c.getLast?.map (·.pool) = some 65 := by decide +kernel
 
 end OsmoVerif.Props.C10
